@@ -2,9 +2,9 @@ package collector
 
 import (
 	"encoding/json"
+	"fmt"
 	"os"
 	"testing"
-	"testing/synctest"
 )
 
 func TestDbgReplay(t *testing.T) {
@@ -12,11 +12,16 @@ func TestDbgReplay(t *testing.T) {
 	if p == "" {
 		t.Skip()
 	}
+	theT = t
 	b, _ := os.ReadFile(p)
 	var doc struct{ Case colCase }
 	json.Unmarshal(b, &doc)
-	var obs colObs
-	synctest.Test(t, func(t *testing.T) {
-		runInBubble(doc.Case, execOpts{Drain: true, StopAtEnd: true}, &obs)
-	})
+	obs := execCase(doc.Case, execOpts{Drain: true, StopAtEnd: true})
+	for _, f := range obs.Forwarded {
+		fmt.Printf("FWD %+v\n", f)
+	}
+	for _, a := range obs.Spans {
+		fmt.Printf("SPAN %+v\n", a)
+	}
+	fmt.Println("panic:", obs.Panic, "decisions:", obs.Decisions, "counters:", obs.Counters)
 }
